@@ -134,6 +134,10 @@ def run(res):
             elif not B.ordered_reduced(r.root, order):
                 res.violation('C17 at scale: the result of %s is not ordered/reduced' % name, {'ordering': order, 'operation': name})
     st = B.run_histories(res, hs, 'C17')
+    # the API around the operations (orderings, respect_ordering, node/OBDD constructors, ==, restrict guards, ...)
+    from checks import bdd_api
+    api = bdd_api.run_api(res, rng_for('C17/api'), quick, store=False)
+    res.coverage['api'] = api
     problems = proof_coverage(res, THEOREMS, MODULES)
     for p in problems:
         res.violation('proof obligation no longer checks: ' + p, {'theorem_or_module': p}, no_input=True)
